@@ -169,9 +169,12 @@ class _gate:
     bound_note = BOUND
 
     def configs():
-        return [{"v": "99.0"}, {"v": "0.8.5"}]
+        return [{"v": "99.0"}, {"v": "0.8.5"}, {"v": "99.0", "collection": True}, {"v": "0.10.0", "collection": True}]
 
     def inputs(b):
+        if getattr(b.cfg, "collection", False):          # the stamp of a collection document is checked like any other
+            from .more import collection
+            return dict(h=collection(b, 2))
         binning = make_binning(b, "B", "static", 2)
         h = hist1d(b, "h", binning, 2, stats=None)
         return dict(h=h)
